@@ -60,7 +60,7 @@ def canon(x):
     if isinstance(x, (set, frozenset)):
         return {'__set__': sorted(repr(canon(v)) for v in x)}
     if _is_process(x):
-        return {'__proc__': REC.uid_of(x, create=False)}
+        return {'__proc__': getattr(x, 'name', '?')}
     try:
         from pint import Quantity, Unit
         if isinstance(x, Quantity):
@@ -80,9 +80,9 @@ def snap_value(v):
     if isinstance(v, dict):
         return {k: snap_value(x) for k, x in v.items()}
     if isinstance(v, tuple) and len(v) == 2 and _is_process(v[0]):
-        return ('<P>', REC.uid_of(v[0], create=False))
+        return ('<P>', getattr(v[0], 'name', '?'))
     if _is_process(v):
-        return ('<P>', REC.uid_of(v, create=False))
+        return ('<P>', getattr(v, 'name', '?'))
     if isinstance(v, (list, np.ndarray, set)):
         return copy.deepcopy(v)
     return v
